@@ -624,14 +624,25 @@ class Configuration(_Configuration):
                 f'\nsyntax error in section {self.scope.location()}\nline {self.parser.number}: {line_str}\n\n{self.error!s}',
             )
 
+        # the file parses: what it says as a whole is checked BEFORE any of it is applied.  The verdict of
+        # validate() used to be computed after the commit and then ignored ('if check: return check' followed
+        # by 'return True'): a neighbor naming an API process nobody defines was loaded, with its routes
+        if not self._validate_pending():
+            self._rollback_reload()
+            return False
+
         self._commit_reload()
         self._link()
 
-        check = self.validate()
-        if check:
-            return check
-
         return True
+
+    def _validate_pending(self) -> bool:
+        committed = (self.neighbors, self.processes)
+        self.neighbors, self.processes = self.neighbor.neighbors, self.process.processes
+        try:
+            return self.validate() is True
+        finally:
+            self.neighbors, self.processes = committed
 
     def validate(self) -> bool:
         for neighbor in self.neighbors.values():
@@ -648,7 +659,7 @@ class Configuration(_Configuration):
                 errors = []
                 for api in neighbor.api[notification]:
                     if notification == 'processes':
-                        if not self.processes[api].get('run', False):
+                        if not self.processes.get(api, {}).get('run', False):
                             return self.error.set(
                                 f"\n\nan api called '{api}' is used by neighbor '{neighbor.session.peer_address}' but not defined\n\n",
                             )
